@@ -294,7 +294,7 @@ Proof.
   - exists SelectBegin; unfold step; rewrite W; split; [reflexivity|discriminate].
   - exists (Select true); unfold step; rewrite W; split; [reflexivity|discriminate].
   - exists ReadBegin; unfold step; rewrite W; split; [reflexivity|discriminate].
-  - exists (Read REof); unfold step; rewrite W; split; [reflexivity|discriminate].
+  - exists (Read RErr); unfold step; rewrite W; split; [reflexivity|discriminate].
   - exists CbRaise; unfold step; rewrite W; split; [reflexivity|discriminate].
   - exists (ChkClosing (closing s)); unfold step; rewrite W, Bool.eqb_reflx; simpl; split; [reflexivity|discriminate].
   - exists (ChkClosing (closing s)); unfold step; rewrite W, Bool.eqb_reflx; simpl; split; [reflexivity|discriminate].
